@@ -314,6 +314,27 @@ impl<'a, F: IVP> SolOut for DefaultSolOut<'a, F> {
                     // Check for terminal event
                     if let Some(limit) = config.terminal_count {
                         if self.event_hits[i] >= limit {
+                            // Requested output times that lie in this step and are not
+                            // beyond the event are still reported before stopping.
+                            if let (Some(t_eval), Some(interp)) = (self.t_eval.as_ref(), interpolant) {
+                                let mut j = self.next_idx;
+                                while j < t_eval.len()
+                                    && ((forward && t_eval[j] <= event_t)
+                                        || (!forward && t_eval[j] >= event_t))
+                                {
+                                    if (forward && t_eval[j] >= xold - self.tol)
+                                        || (!forward && t_eval[j] <= xold + self.tol)
+                                    {
+                                        let mut yi = vec![0.0; y.len()];
+                                        interp.interpolate(t_eval[j], &mut yi);
+                                        self.t.push(t_eval[j]);
+                                        self.y.push(yi);
+                                    }
+                                    j += 1;
+                                }
+                                self.next_idx = j;
+                            }
+
                             // Add the terminal event point to the output
                             self.t.push(event_t);
                             self.y.push(event_y);
